@@ -55,6 +55,7 @@ func cmdVerify(repo, verif string, pats []string) int {
 		fmt.Fprintln(os.Stderr, err)
 		return 2
 	}
+	p.findings = loadFindings(verif)
 	fmt.Printf("loaded in %.1fs; %d contracts\n", time.Since(t0).Seconds(), len(p.contracts.Funcs))
 	var ids []string
 	for id := range p.contracts.Funcs {
@@ -91,6 +92,17 @@ func cmdVerify(repo, verif string, pats []string) int {
 	tmo := 10
 	if s := os.Getenv("GOVC_TIMEOUT"); s != "" {
 		fmt.Sscanf(s, "%d", &tmo)
+	}
+	for _, o := range all {
+		for i := range p.findings {
+			fd := &p.findings[i]
+			if fd.Status == "known" && fd.Obligation == o.Name {
+				o.Finding = fd
+				if fd.Region != "" && o.vc != nil {
+					o.Region = o.vc.regions[o.Name]
+				}
+			}
+		}
 	}
 	discharge(all, SolveOpts{OutDir: out, TimeoutS: tmo, Workers: runtime.NumCPU(), Prelude: p.prelude.text})
 	bad := 0
